@@ -43,7 +43,7 @@ def _tag_app():
     return tagapp_C19.c19_tag
 
 
-def pipeline_action(indir, outdir, mode, fail_ids, callsfile, soft_k):
+def pipeline_action(indir, outdir, mode, fail_ids, callsfile, soft_k, store="dir"):
     def action():
         import multiprocessing.process as mpp
 
@@ -51,7 +51,12 @@ def pipeline_action(indir, outdir, mode, fail_ids, callsfile, soft_k):
         from cogent3 import get_app, open_data_store
         from cogent3.app.data_store import DataStoreDirectory
 
-        out = DataStoreDirectory(outdir, mode=mode, suffix="fasta")
+        if store == "sqlite":
+            from cogent3.app.sqlite_data_store import DataStoreSqlite
+
+            out = DataStoreSqlite(sqlite_path(outdir), mode=mode)
+        else:
+            out = DataStoreDirectory(outdir, mode=mode, suffix="fasta")
         if soft_k:
             n = [0]
 
@@ -67,17 +72,48 @@ def pipeline_action(indir, outdir, mode, fail_ids, callsfile, soft_k):
             out.write = wrap(out.write)
             out.write_not_completed = wrap(out.write_not_completed)
         loader = get_app("load_aligned", format="fasta", moltype="dna")
-        writer = get_app("write_seqs", data_store=out, format="fasta")
-        app = loader + _tag_app()(fail_ids=fail_ids, callsfile=str(callsfile)) + writer
+        if store == "sqlite":
+            writer = get_app("write_db", data_store=out)
+        else:
+            writer = get_app("write_seqs", data_store=out, format="fasta")
+        import tagapp_C19
+
+        tag = tagapp_C19.c19_tag_ser if store == "sqlite" else tagapp_C19.c19_tag
+        app = loader + tag(fail_ids=fail_ids, callsfile=str(callsfile)) + writer
         ins = open_data_store(indir, suffix="fasta")
-        app.apply_to(ins, show_progress=False)
+        try:
+            app.apply_to(ins, show_progress=False)
+        finally:
+            if store == "sqlite":
+                out.close()
 
     return action
 
 
-def store_snapshot(outdir: Path):
-    """{relative path: text} of the store without its logs"""
+def sqlite_path(outdir: Path) -> Path:
+    return Path(str(outdir) + ".sqlitedb")
+
+
+def store_snapshot(outdir: Path, store="dir"):
+    """{relative path: text} of the store without its logs (sqlite: {record_id: [is_completed, md5, data]})"""
     snap = {}
+    if store == "sqlite":
+        import sqlite3
+
+        path = sqlite_path(outdir)
+        if not path.exists():
+            return snap
+        db = sqlite3.connect(f"file:{path}?mode=ro", uri=True)
+        try:
+            for rid, done, md5, data in db.execute("SELECT record_id, is_completed, md5, data FROM results"):
+                data = data if isinstance(data, bytes) else str(data).encode()
+                md5 = md5.decode() if isinstance(md5, bytes) else md5
+                snap[str(rid)] = [int(done), md5, data.hex()]
+        except sqlite3.OperationalError:
+            pass  # the tables do not exist yet
+        finally:
+            db.close()
+        return snap
     if not outdir.exists():
         return snap
     for p in sorted(outdir.rglob("*")):
@@ -87,7 +123,12 @@ def store_snapshot(outdir: Path):
     return snap
 
 
-def rec_state(snap, ref, i, isnc):
+def rec_state(snap, ref, i, isnc, store="dir"):
+    if store == "sqlite":
+        # one row per input holds the record, its checksum and the completed flag; written by one statement
+        if i not in snap:
+            return "none"
+        return "done" if snap[i] == ref[i] else "rec_partial"
     rec = f"not_completed/{i}.json" if isnc else f"{i}.fasta"
     md5 = f"md5/{i}.txt"
     if rec not in snap:
@@ -107,7 +148,8 @@ def read_calls(path: Path):
 
 def scenario(job):
     """one interrupted run + re-run; returns raw observations"""
-    indir, n, fail_ids, kind, k, scratch = job
+    indir, n, fail_ids, kind, k, scratch = job[:6]
+    store = job[6] if len(job) > 6 else "dir"
     root = Path(tempfile.mkdtemp(prefix="resume-", dir=scratch))
     try:
         o = root / "o"
@@ -115,18 +157,18 @@ def scenario(job):
         outdir = o / "out"
         c1, c2 = root / "calls1.txt", root / "calls2.txt"
         if kind == "none":
-            st1, ev1, end1 = faults.run_in_child(o, outdir, 0, "dry", root / "log1", pipeline_action(indir, outdir, "w", fail_ids, c1, None), timeout=120)
-            return {"kind": kind, "k": k, "fail_ids": fail_ids, "status1": st1, "end1": end1, "nbound": len(ev1),
-                    "events": [(e["role"], e["raw"]) for e in ev1], "calls1": read_calls(c1), "ref": store_snapshot(outdir)}
+            st1, ev1, end1 = faults.run_in_child(o, outdir, 0, "dry", root / "log1", pipeline_action(indir, outdir, "w", fail_ids, c1, None, store), timeout=120)
+            return {"kind": kind, "k": k, "store": store, "fail_ids": fail_ids, "status1": st1, "end1": end1, "nbound": len(ev1),
+                    "events": [(e["role"], e["raw"]) for e in ev1], "calls1": read_calls(c1), "ref": store_snapshot(outdir, store)}
         if kind == "soft":
-            st1, ev1, end1 = faults.run_in_child(o, outdir, 0, "dry", root / "log1", pipeline_action(indir, outdir, "w", fail_ids, c1, k), timeout=120)
+            st1, ev1, end1 = faults.run_in_child(o, outdir, 0, "dry", root / "log1", pipeline_action(indir, outdir, "w", fail_ids, c1, k, store), timeout=120)
         else:
-            st1, ev1, end1 = faults.run_in_child(o, outdir, k, "kill", root / "log1", pipeline_action(indir, outdir, "w", fail_ids, c1, None), timeout=120)
-        at = store_snapshot(outdir)
+            st1, ev1, end1 = faults.run_in_child(o, outdir, k, "kill", root / "log1", pipeline_action(indir, outdir, "w", fail_ids, c1, None, store), timeout=120)
+        at = store_snapshot(outdir, store)
         where = next((e["raw"] for e in ev1 if e["i"] == k), None) if kind == "kill" else f"store write #{k}"
-        st2, ev2, end2 = faults.run_in_child(o, outdir, 0, "dry", root / "log2", pipeline_action(indir, outdir, "a", fail_ids, c2, None), timeout=120)
-        return {"kind": kind, "k": k, "fail_ids": fail_ids, "status1": st1, "end1": end1, "where": where, "at": at,
-                "status2": st2, "end2": end2, "calls1": read_calls(c1), "calls2": read_calls(c2), "final": store_snapshot(outdir)}
+        st2, ev2, end2 = faults.run_in_child(o, outdir, 0, "dry", root / "log2", pipeline_action(indir, outdir, "a", fail_ids, c2, None, store), timeout=120)
+        return {"kind": kind, "k": k, "store": store, "fail_ids": fail_ids, "status1": st1, "end1": end1, "where": where, "at": at,
+                "status2": st2, "end2": end2, "calls1": read_calls(c1), "calls2": read_calls(c2), "final": store_snapshot(outdir, store)}
     finally:
         shutil.rmtree(root, ignore_errors=True)
 
@@ -171,16 +213,19 @@ def run_models(run, scratch):
 
 
 def model_outcomes(model):
-    """terminal states of the transcribed model: (nc set, at vector, calls2, final vector, raised)"""
+    """terminal states of the transcribed model: (configuration, nc set, at vector, calls2, final vector, raised)"""
     outs = set()
     for r in model:
         t = r["to"]
         if t["phase"] == "raised" or (t["phase"] == "finished" and t["run"] == 2):
-            outs.add((tuple(sorted(t["nc"])), tuple(t["at"]), tuple(sorted(t["calls2"])), tuple(t["s"]), t["phase"] == "raised"))
+            outs.add((t["cfg"], tuple(sorted(t["nc"])), tuple(t["at"]), tuple(sorted(t["calls2"])), tuple(t["s"]), t["phase"] == "raised"))
     return outs
 
 
 # ------------------------------------------------------------------------- check
+STORES = {"dir": "current", "sqlite": "sqlite"}  # store kind -> configuration of AtomicWriteResume.tla transcribing it
+
+
 def check_resume(run, scratch: Path, models):
     model, table, tlc_results = models
     for res in tlc_results:
@@ -194,45 +239,54 @@ def check_resume(run, scratch: Path, models):
     ctx = mp.get_context("fork")
     _tag_app()
     stats = Counter()
+    ncsets = [(), (2,)] if run.tier == "quick" else [(), (2,), (4,), (1, 3)]
     with ctx.Pool(WORKERS) as pool:
-        # the uninterrupted run without failing inputs fixes the processing order
-        base = scenario((indir, n, (), "none", 0, str(work)))
-        if base["status1"] != "exited" or base["end1"]["end"] != "ok" or sorted(base["calls1"]) != sorted(IDS[:n]):
-            raise RuntimeError(f"uninterrupted apply_to did not complete: {base['status1']} {base['end1']} {base['calls1']}")
-        order = base["calls1"]
-        ncsets = [(), (2,)] if run.tier == "quick" else [(), (2,), (4,), (1, 3)]
         plans = []
-        for ncs in ncsets:
-            fail_ids = tuple(order[p - 1] for p in ncs)
-            ref = base if not ncs else scenario((indir, n, fail_ids, "none", 0, str(work)))
-            if ref["status1"] != "exited" or ref["end1"]["end"] != "ok" or ref["calls1"] != order:
-                raise RuntimeError(f"uninterrupted apply_to with failing inputs {fail_ids}: {ref['status1']} {ref['end1']} {ref['calls1']}")
-            plans.append((ncs, fail_ids, ref))
+        order = None
+        for store in STORES:
+            # the uninterrupted run without failing inputs fixes the processing order
+            base = scenario((indir, n, (), "none", 0, str(work), store))
+            if base["status1"] != "exited" or base["end1"]["end"] != "ok" or sorted(base["calls1"]) != sorted(IDS[:n]):
+                raise RuntimeError(f"uninterrupted apply_to ({store}) did not complete: {base['status1']} {base['end1']} {base['calls1']}")
+            if order is None:
+                order = base["calls1"]
+            if base["calls1"] != order:
+                raise RuntimeError(f"processing order differs between store kinds: {order} {base['calls1']}")
+            for ncs in ncsets:
+                fail_ids = tuple(order[p - 1] for p in ncs)
+                ref = base if not ncs else scenario((indir, n, fail_ids, "none", 0, str(work), store))
+                if ref["status1"] != "exited" or ref["end1"]["end"] != "ok" or ref["calls1"] != order:
+                    raise RuntimeError(f"uninterrupted apply_to ({store}) with failing inputs {fail_ids}: {ref['status1']} {ref['end1']} {ref['calls1']}")
+                plans.append((store, ncs, fail_ids, ref))
         jobs = []
-        for ncs, fail_ids, ref in plans:
+        for store, ncs, fail_ids, ref in plans:
             for k in range(1, n + 1):
-                jobs.append((indir, n, fail_ids, "soft", k, str(work)))
+                jobs.append((indir, n, fail_ids, "soft", k, str(work), store))
+            if store == "sqlite":
+                continue  # sqlite: interruption between store writes only (no process kill inside sqlite's own I/O)
             for k in range(1, ref["nbound"] + 1):
                 raw = ref["events"][k - 1][1]
                 if run.tier == "quick" and ncs and not ("not_completed" in raw or any(f in raw for f in fail_ids)):
                     continue  # quick: with a failing input only the boundaries that differ from the all-complete run
-                jobs.append((indir, n, fail_ids, "kill", k, str(work)))
+                jobs.append((indir, n, fail_ids, "kill", k, str(work), store))
         results = pool.map(scenario, jobs, chunksize=1)
-    refs = {fail_ids: (ncs, ref) for ncs, fail_ids, ref in plans}
+    refs = {(store, fail_ids): (ncs, ref) for store, ncs, fail_ids, ref in plans}
     observed = set()
     for r in results:
-        ncs, ref = refs[r["fail_ids"]]
-        stats[r["kind"]] += 1
+        store = r["store"]
+        ncs, ref = refs[(store, r["fail_ids"])]
+        stats[f"{store}:{r['kind']}"] += 1
         refsnap = ref["ref"]
         isnc = {i: (i in r["fail_ids"]) for i in order}
-        at = [rec_state(r["at"], refsnap, i, isnc[i]) for i in order]
-        fin = [rec_state(r["final"], refsnap, i, isnc[i]) for i in order]
+        at = [rec_state(r["at"], refsnap, i, isnc[i], store) for i in order]
+        fin = [rec_state(r["final"], refsnap, i, isnc[i], store) for i in order]
         calls2 = r["calls2"]
         raised = not (r["status2"] == "exited" and r["end2"]["end"] == "ok")
         expected_status1 = "killed" if r["kind"] == "kill" else "exited"
         if r["status1"] != expected_status1:
-            raise RuntimeError(f"resume scenario {r['kind']}@{r['k']}: run 1 ended {r['status1']} {r['end1']}")
+            raise RuntimeError(f"resume scenario {store} {r['kind']}@{r['k']}: run 1 ended {r['status1']} {r['end1']}")
         detail = {
+            "store": {"dir": "DataStoreDirectory + write_seqs", "sqlite": "DataStoreSqlite + write_db"}[store],
             "inputs_in_processing_order": order,
             "failing_inputs": list(r["fail_ids"]),
             "interrupt": r["kind"],
@@ -246,51 +300,50 @@ def check_resume(run, scratch: Path, models):
             "store_after_rerun": sorted(r["final"]),
             "store_uninterrupted": sorted(refsnap),
         }
-        nc_tag = "with-failing-input" if r["fail_ids"] else "all-complete"
+        pfx = "resume" if store == "dir" else f"resume-{store}"
         bad = False
         if raised:
             exc = (detail["rerun_exception"] or r["status2"]).split(":")[0]
             pre = ["present"] if any(isnc[i] and a != "none" for i, a in zip(order, at)) else []
             bad = True
-            run.fail(f"resume:{r['kind']}:rerun-raises:{exc}:nc-record={'+'.join(pre) or 'none'}", detail,
+            run.fail(f"{pfx}:{r['kind']}:rerun-raises:{exc}:nc-record={'+'.join(pre) or 'none'}", detail,
                      what=f"re-running apply_to in append mode raised {detail['rerun_exception']}")
         else:
             if len(calls2) != len(set(calls2)):
                 bad = True
-                run.fail(f"resume:{r['kind']}:input-processed-twice", detail, what="an input was processed twice in the re-run")
+                run.fail(f"{pfx}:{r['kind']}:input-processed-twice", detail, what="an input was processed twice in the re-run")
             for i, a, f in zip(order, at, fin):
                 if not table[(a, i in calls2, f, isnc[i])]:
                     bad = True
-                    run.fail(f"resume:{r['kind']}:record{'(not-completed)' if isnc[i] else ''}:at-interrupt={a}:reprocessed={i in calls2}:final={f}",
+                    run.fail(f"{pfx}:{r['kind']}:record{'(not-completed)' if isnc[i] else ''}:at-interrupt={a}:reprocessed={i in calls2}:final={f}",
                              {**detail, "input": i}, what=f"input {i}: {a} at interrupt ({r['where']}), reprocessed={i in calls2}, final={f}")
             extra = sorted(set(r["final"]) - set(refsnap))
             if extra:
                 bad = True
-                run.fail(f"resume:{r['kind']}:unexpected-members", {**detail, "extra": extra}, what=f"the resumed store holds members an uninterrupted run does not: {extra}")
+                run.fail(f"{pfx}:{r['kind']}:unexpected-members", {**detail, "extra": extra}, what=f"the resumed store holds members an uninterrupted run does not: {extra}")
         stats["bad" if bad else "good"] += 1
         # conformance with the transcribed model (outcome level)
-        obs = (tuple(ncs), tuple(at), tuple(sorted(order.index(c) + 1 for c in set(calls2))), tuple(fin), raised)
+        obs = (STORES[store], tuple(ncs), tuple(at), tuple(sorted(order.index(c) + 1 for c in set(calls2))), tuple(fin), raised)
         observed.add(obs)
         if obs not in outs:
             stats["not_a_model_outcome"] += 1
-            run.model_drift(f"resume outcome is not an outcome of the transcribed model: {r['kind']}@{r['k']} {obs}")
+            run.model_drift(f"resume outcome is not an outcome of the transcribed model: {store} {r['kind']}@{r['k']} {obs}")
         else:
             run.cov["traces_validated_against_impl"] += 1
-        if r["kind"] == "kill" and (bad or r["k"] % 9 == 0):
-            run.sample({"resume": r["kind"], "where": r["where"], "at": at, "reprocessed": calls2, "final": fin, "rerun_raised": raised}, limit=12)
-    bad_model = {o for o in outs if o[4] or any(not table[(a, (j + 1) in o[2], f, (j + 1) in o[0])] for j, (a, f) in enumerate(zip(o[1], o[3])))}
-    if run.tier == "quick":
-        # with a failing input quick drives only part of the kill points: reproduction is required for the fully driven set
-        bad_model = {o for o in bad_model if not o[0]}
+        if (r["kind"] == "kill" and (bad or r["k"] % 9 == 0)) or (store == "sqlite" and r["fail_ids"] and r["k"] == n):
+            run.sample({"resume": r["kind"], "store": store, "where": r["where"], "failing": list(r["fail_ids"]), "at": at, "reprocessed": calls2, "final": fin, "rerun_raised": raised}, limit=14 if store == "dir" else 18)
+    bad_model = {o for o in outs if o[5] or any(not table[(a, (j + 1) in o[3], f, (j + 1) in o[1])] for j, (a, f) in enumerate(zip(o[2], o[4])))}
+    # reproduction is required where the kill points are fully driven: the directory store (quick: without failing input)
+    bad_model = {o for o in bad_model if o[0] == "current" and not (run.tier == "quick" and o[1])}
     missing = sorted(bad_model - observed)
     run.note("resume_model_outcomes", len(outs))
     run.note("resume_predicted_counterexamples", len(bad_model))
     run.note("resume_predicted_counterexamples_reproduced", len(bad_model) - len(missing))
-    run.note("resume_predicted_not_reproduced", [list(map(list, m[:4])) + [m[4]] for m in missing[:10]])
+    run.note("resume_predicted_not_reproduced", [list(map(list, m[1:5])) + [m[5]] for m in missing[:10]])
     for m in missing:
         run.model_drift(f"resume counterexample of the transcribed model not reproduced on the real code: {m}")
     run.note("resume_scenarios", dict(stats))
-    run.note("resume_boundaries_per_run", {str(list(ncs)): ref["nbound"] for ncs, _, ref in plans})
-    nsc = stats["soft"] + stats["kill"]
+    run.note("resume_boundaries_per_run", {f"{store}:{list(ncs)}": ref["nbound"] for store, ncs, _, ref in plans})
+    nsc = sum(v for k, v in stats.items() if k.endswith(":soft") or k.endswith(":kill"))
     run.cov["evaluations"] += nsc
     run.cov["distinct_nontrivial"] += nsc
